@@ -26,6 +26,9 @@ var atoms = []string{
 	`AA = / x/`, `BB = /x /`, `BB = /a\/b /`, `AA = "\"x\\"`,
 	// valid patterns that match only the empty text, or hold a piece that does
 	`AA = /x{0}/`, `BB = /(y|z){0,0}yy/`,
+	// a rule handle that holds a terminal, in second position of its directive: it is the handle of its production, not
+	// of the terminal (next to `@left "y"` the specification is well-formed, next to `@none < z = "y" >` it is not)
+	`@right "v" < z = "y" > ;`,
 }
 
 type renaming struct {
